@@ -22,14 +22,26 @@ def special_values(rng):
 
 class V:
     """value source: k-th draw of value vector j"""
-    def __init__(self, rng):
+    def __init__(self, rng, mode="random"):
         self.rng = rng
+        self.mode = mode          # "zero": the Default instance (every value 0, every point the identity); "same": one
+        self.same = None          # random value for EVERY field operand (equal operands); "one": every value 1
+        if mode == "same":
+            self.same = rng.fe()
 
     def fe(self):
+        if self.mode == "zero":
+            return "0"
+        if self.mode == "one":
+            return "1"
+        if self.mode == "same":
+            return hx(self.same)
         return hx(self.rng.choice(special_values(self.rng)))
 
     def ext(self):
         r = self.rng
+        if self.mode in ("zero", "one"):
+            return ext_str((0, 1, 1, 0, 0))                              # the identity, as `Default` instances hold
         k = r.below(8)
         if k == 0:
             return ext_str((r.fe(), r.fe(), 0, r.fe(), r.fe()))          # Z = 0
@@ -111,7 +123,12 @@ def run(ctx, broken):
             k = 2
         idx = []
         for j in range(k):
-            src = fn(V(rng))
+            # vector 0 is the DEFAULT instance (all zero: what the keys are compiled from), vector 1 random, then equal operands,
+            # all ones, random ...
+            mode = ["zero", "random", "same", "one"][j] if j < 4 else "random"
+            if name.startswith("pole-"):
+                mode = "random"
+            src = fn(V(rng, mode))
             idx.append(len(cases))
             cases.append({"src": src, "cmd": "shape", "tags": [name.split("-")[0]], "expect": None, "rv": None})
         groups.append((name, idx))
@@ -145,7 +162,7 @@ def run(ctx, broken):
     st["templates"] = len(T)
     st["exhaustive_in_width"] = True
     st["rule"] = ("every public component, every const-generic width (range_bits 0..=256, range pairs, logic and/xor 0..=127, "
-                  "truncate 0..=254, decomposition 1..=256), arithmetic/select/point/mul components; 2-3 value vectors per template "
+                  "truncate 0..=254, decomposition 1..=256), arithmetic/select/point/mul components; 2-3 value vectors per template, the FIRST being the all-zero / identity Default instance the keys are compiled from, then random, all-equal operands, all ones "
                   "(12 in thorough) from {0,1,-1,2,r_J,r_J-1,2^252-1,2^252,2^254,2^k,2^k-1,random} and malformed points (Z=0,(0,0),"
                   "inconsistent T, off-curve, torsion), raw addends on both poles d*x1*x2*y1*y2 = +-1 of the addition law; debug-assertions+overflow-checks build. Checked: no panic; same gates/"
                   "public-input rows/witness count across value vectors unless an error is returned; impl shape == Lean model shape.")
